@@ -265,6 +265,14 @@ func genC20(r *simrt.Rand, tier string, idx uint64) *Plan {
 			p.Streams = append(p.Streams, StreamPlan{Conn: conn, Echo: true, Push: r.Intn(2), Sizes: []int{5, 6}})
 			// open stream with a reader blocked in it
 			p.Clients = append(p.Clients, ClientPlan{Conn: conn, Ops: []Op{{Kind: "sopen", Stream: nstreams}, {Kind: "swrite", Stream: nstreams, N: 1}, {Kind: "sread", Stream: nstreams, N: 3}}})
+			if r.Chance(1, 2) {
+				// another goroutine writes to the stream while a third closes it: a message may reach
+				// the server after the close of its stream has been processed
+				p.Streams[nstreams].Sizes = []int{5, 6, 7, 8, 9, 10}
+				p.Clients = append(p.Clients,
+					ClientPlan{Conn: conn, Ops: []Op{{Kind: "await", Stream: nstreams, Shape: 0}, {Kind: "spin", N: r.Intn(4)}, {Kind: "swrite", Stream: nstreams, N: 2 + r.Intn(3)}}},
+					ClientPlan{Conn: conn, Ops: []Op{{Kind: "await", Stream: nstreams, Shape: 0}, {Kind: "spin", N: r.Intn(6)}, {Kind: "sclose", Stream: nstreams}}})
+			}
 			nstreams++
 		}
 		_ = small
